@@ -16,7 +16,12 @@
 
 package slices
 
-import "istio.io/istio/pkg/verif"
+import (
+	"cmp"
+	"slices"
+
+	"istio.io/istio/pkg/verif"
+)
 
 // Map applies a pure function element-wise (the contract is proved for pure f; wherever it is used
 // the closure handed over is checked not to write memory).
@@ -49,5 +54,36 @@ func ctFilterInPlace[E any](s []E, keep func(E) bool) {
 		return !(0 <= i && i < len(r)) || verif.Exists(func(j int) bool {
 			return 0 <= j && j < len(s) && verif.Same(r[i], verif.Old(func() E { return s[j] }))
 		})
+	}))
+}
+
+// among: x occurs among the first n elements of items.
+func among[S ~[]E, E comparable](items S, n int, x E) bool {
+	return verif.Exists(func(j int) bool { return 0 <= j && j < n && j < len(items) && items[j] == x })
+}
+
+// The standard library's sort rearranges the elements of the slice it is handed, and does nothing else
+// (assumed: the standard library is not loaded from source).
+//
+//verif:trusted-contract slices.Sort
+func ctStdSort[S ~[]E, E cmp.Ordered](x S) {
+	slices.Sort(x)
+	verif.Ensures("same-elements", verif.Forall(func(e E) bool {
+		return among(x, len(x), e) == verif.Old(func() bool { return among(x, len(x), e) })
+	}))
+	// the same, position by position (a form the solvers can use to find witnesses)
+	verif.Ensures("every-element-went-somewhere", verif.Forall(func(i int) bool {
+		if !(0 <= i && i < len(x)) {
+			return true
+		}
+		was := verif.Old(func() E { return x[i] })
+		return verif.Exists(func(j int) bool { return 0 <= j && j < len(x) && x[j] == was })
+	}))
+	verif.Ensures("every-element-came-from-somewhere", verif.Forall(func(i int) bool {
+		if !(0 <= i && i < len(x)) {
+			return true
+		}
+		now := x[i]
+		return verif.Exists(func(j int) bool { return 0 <= j && j < len(x) && verif.Old(func() E { return x[j] }) == now })
 	}))
 }
